@@ -459,6 +459,29 @@ func main() {
 		s.Close()
 	}
 
+	if os.Getenv("C14_DEBUG_RAW") != "" {
+		var first []byte
+		for i := 0; i < 40; i++ {
+			s := cfgs[0].newSys()
+			b, _ := os.ReadFile(sw.MetaPath(s.dir))
+			if first == nil {
+				first = b
+			} else if !bytes.Equal(first, b) {
+				var offs []int
+				for k := range b {
+					if k < len(first) && b[k] != first[k] {
+						offs = append(offs, k)
+					}
+				}
+				fmt.Println("run", i, "differs: len", len(first), len(b), "offsets", offs)
+				for _, k := range offs {
+					fmt.Printf(" %d: %02x vs %02x\n", k, first[k], b[k])
+				}
+			}
+			s.Close()
+		}
+		finish()
+	}
 	if r.Replay != "" {
 		var rp struct{ Ops []string }
 		r.LoadReplay(&rp)
